@@ -158,7 +158,9 @@ def main():
 
     verdicts = []
     chunk = 400
-    deadline = t0 + float(os.environ.get("VERIF_BUDGET_S", "100000"))
+    # exploration stops (after the current chunk) when the time budget of the tier is used up; the evidence then says how
+    # many cases were explored
+    deadline = t0 + float(os.environ.get("VERIF_BUDGET_S", "600" if tier == "quick" else "1800"))
     explored = 0
     for start in range(0, len(cases), chunk):
         verdicts.extend(evaluate(prop, cases[start:start + chunk]))
@@ -167,6 +169,8 @@ def main():
             break
         if any(v["holds"] is False for v in verdicts[-chunk:]):
             break  # a failing input is in hand: report it rather than exploring further
+    out_of_time = explored < len(cases) and not any(v["holds"] is False for v in verdicts)
+    planned = len(cases)
     cases = cases[:explored]
 
     bad_holds = [(c, v) for c, v in zip(cases, verdicts) if v["holds"] is False]
@@ -263,6 +267,8 @@ def main():
             "theorems": audit.get("theorems", {}),
             "audit_problems": audit.get("problems", []),
             "evaluations": len(cases) + extra_evals,
+            "planned_evaluations": planned,
+            "stopped_by_time_budget": out_of_time,
             "distinct_nontrivial": len(nontrivial),
             "rule": prop.RULE,
             "samples": samples,
